@@ -201,7 +201,7 @@ pub fn c11_case(rs: u64, _nonce: u64, replay: Option<Vec<u32>>) -> CaseOutcome {
     let addr = 0x1000 + target as u16;
     let mut st = Enumerated { positions: 0, dropouts: 0, skips: 0, tampers: 0 };
     let sd = group.subdevice(md, target).expect("target");
-    let which = w.sim.tape.choose(3, "op_set");
+    let which = w.sim.tape.choose(if crate::tape::gen() >= 2 { 4 } else { 3 }, "op_set");
     let reg: u16 = w.sim.tape.pick(&[0x0010u16, 0x0130, 0x0012, 0x0008], "register");
 
     // Single-datagram entry points.
@@ -256,6 +256,20 @@ pub fn c11_case(rs: u64, _nonce: u64, replay: Option<Vec<u32>>) -> CaseOutcome {
         });
         enumerate_op!(w, out, st, snap, target, "eeprom_read::<u32>", false, async { sd.eeprom_read::<u32>(md, start).await.map(|v| v.to_le_bytes()) });
         enumerate_op!(w, out, st, snap, target, "eeprom_size", false, async { sd.eeprom_size(md).await.map(|v| (v as u32).to_le_bytes()) });
+    } else if which == 3 {
+        // gen >= 2: auto-increment addressing, EEPROM writes, array write, SDO information services.
+        let pos = target as u16;
+        enumerate_op!(w, out, st, snap, target, "aprd.receive::<u16>", true, async { Command::aprd(pos, reg).receive::<u16>(md).await.map(|v| v.to_le_bytes()) });
+        enumerate_op!(w, out, st, snap, target, "apwr.send_receive::<u16>", true, async { Command::apwr(pos, 0x0f84).send_receive::<u16>(md, 0x4321u16).await.map(|v| v.to_le_bytes()) });
+        enumerate_op!(w, out, st, snap, target, "fprd.receive::<[u8;6]>", true, async { Command::fprd(addr, 0x0f80).receive::<[u8; 6]>(md).await.map(|v| v.to_vec()) });
+        let ee_word = 0x30 + w.sim.tape.choose(8, "ee_write_word") as u16;
+        enumerate_op!(w, out, st, snap, target, "eeprom_write_dangerously::<u16>", false, async { sd.eeprom_write_dangerously(md, ee_word, 0xa55au16).await.map(|_| [0u8; 0]) });
+        enumerate_op!(w, out, st, snap, target, "description", false, async { sd.description().await.map(|d| d.map(|s| s.as_bytes().to_vec()).unwrap_or_default()) });
+        enumerate_op!(w, out, st, snap, target, "sdo_write_array(0x2000)", false, async { sd.sdo_write_array(0x2000, &[0x1111u16, 0x2222]).await.map(|_| [0u8; 0]) });
+        enumerate_op!(w, out, st, snap, target, "sdo_info_object_quantities", false, async { sd.sdo_info_object_quantities().await.map(|q| format!("{:?}", q).into_bytes()) });
+        enumerate_op!(w, out, st, snap, target, "sdo_info_object_description_list", false, async {
+            sd.sdo_info_object_description_list(ethercrab::ObjectDescriptionListQuery::All).await.map(|q| format!("{:?}", q).into_bytes())
+        });
     } else {
         // Mailbox / SDO.
         enumerate_op!(w, out, st, snap, target, "sdo_read::<u32>(0x1018:1)", false, async { sd.sdo_read::<u32>(0x1018, 1).await.map(|v| v.to_le_bytes()) });
@@ -282,7 +296,7 @@ pub fn c11_case(rs: u64, _nonce: u64, replay: Option<Vec<u32>>) -> CaseOutcome {
     out.faults.insert("single_datagram_unanswered".into(), st.skips);
     out.faults.insert("wkc_tamper".into(), st.tampers);
     out.probes.insert("fault_positions".into(), st.positions);
-    let op_set = ["single-datagram entry points + expected counts 0..3", "status + EEPROM", "SDO"][which];
+    let op_set = ["single-datagram entry points + expected counts 0..3", "status + EEPROM", "SDO", "auto-increment addressing, EEPROM write, array write, SDO information"][which];
     out.describe = json!({"devices": n, "target": target, "op_set": op_set, "fault_positions": st.positions, "runs": st.dropouts + st.skips + st.tampers});
     if !w.sim.seg.malformed.is_empty() && out.violations.is_empty() {
         out.violations.push(viol("malformed-frame", w.sim.seg.malformed[0].clone()));
